@@ -30,13 +30,44 @@ type item struct {
 	probes []string
 }
 
+// itemMeta (optional, generated items): sig = the name of the item in signatures (what the item is about, not which
+// one it is); pnames (parallel to probes) = what a probe observes, used in signatures instead of the probe's number.
+type itemMeta struct {
+	sig    string
+	pnames []string
+	inh    *inhWorld
+}
+
+var itemMetas = map[string]*itemMeta{}
+
+func (it *item) sigName() string {
+	if m := itemMetas[it.id]; m != nil && m.sig != "" {
+		return m.sig
+	}
+	return it.id
+}
+
+func (it *item) probeName(pi int) string {
+	if m := itemMetas[it.id]; m != nil && pi < len(m.pnames) && m.pnames[pi] != "" {
+		return m.pnames[pi]
+	}
+	return fmt.Sprint(pi + 1)
+}
+
+func (it *item) inhWorld() *inhWorld {
+	if m := itemMetas[it.id]; m != nil {
+		return m.inh
+	}
+	return nil
+}
+
 var items = []*item{
 	{"defvar", []string{`(defvar *va* 42 "Doc of va.")`},
 		[]string{`*va*`, `(documentation '*va* 'variable)`}},
 	{"defparameter", []string{`(defparameter *pb* '(1 "two" (3 . 4) 2.5 (nested (list "x"))))`},
 		[]string{`*pb*`}},
 	{"defconstant", []string{`(defconstant +kc+ 7 "Doc of kc.")`},
-		[]string{`+kc+`, `(setq +kc+ 8)`}},
+		[]string{`+kc+`, `(setq +kc+ 8)`, `(documentation '+kc+ 'variable)`}},
 	{"symbol-vars", []string{`(defvar *vs* 'sym)`, `(defvar *vk* :key)`},
 		[]string{`*vs*`, `*vk*`}},
 	{"defun", []string{`(defun f1 (x) "Doc of f1." (* x 2))`},
@@ -45,20 +76,21 @@ var items = []*item{
 	{"defun-calls", []string{`(defun f9 (x) (* x 2))`, `(defun f2 (x &optional (y 3)) (+ (f9 x) y))`},
 		[]string{`(f2 1)`, `(f2 1 2)`, `(f9 4)`}},
 	{"defmacro", []string{`(defmacro m1 (a b) (list '+ a (list '* 2 b)))`},
-		[]string{`(m1 1 2)`, `(m1 (no-such-function-zz) 2)`, `(let ((q 4)) (m1 q q))`}},
+		[]string{`(m1 1 2)`, `(m1 (no-such-function-zz) 2)`, `(let ((q 4)) (m1 q q))`, `(documentation 'm1 'function)`}},
 	{"defflavor", []string{
 		`(defflavor fl1 ((a 1) (b "x")) () :gettable-instance-variables :settable-instance-variables :inittable-instance-variables (:documentation "Doc of fl1."))`,
 		`(defmethod (fl1 :sum) (n) (+ a n))`,
 		`(defmethod (fl1 :before :sum) (n) (setq b (list 'before n)))`},
 		[]string{`(send (make-instance 'fl1) :a)`, `(send (make-instance 'fl1 :a 10) :a)`,
 			`(let ((i (make-instance 'fl1))) (send i :set-b "q") (send i :b))`,
-			`(send (make-instance 'fl1) :sum 4)`, `(let ((i (make-instance 'fl1))) (send i :sum 4) (send i :b))`}},
+			`(send (make-instance 'fl1) :sum 4)`, `(let ((i (make-instance 'fl1))) (send i :sum 4) (send i :b))`,
+			`(documentation 'fl1 'type)`, `(slot-value (make-instance 'fl1 :b "init") 'b)`}},
 	{"defclass", []string{`(defclass cl1 () ((s1 :initarg :s1 :initform 5) (s2 :initform "z")))`},
 		[]string{`(slot-value (make-instance 'cl1) 's1)`, `(slot-value (make-instance 'cl1 :s1 9) 's1)`, `(slot-value (make-instance 'cl1) 's2)`}},
 	{"defgeneric", []string{`(defgeneric g1 (a b))`,
 		`(defmethod g1 ((a fixnum) (b string)) (list 'fixnum-string a b))`,
 		`(defmethod g1 ((a string) (b t)) (list 'string-any a b))`},
-		[]string{`(g1 1 "a")`, `(g1 "s" 2)`, `(g1 1 2)`}},
+		[]string{`(g1 1 "a")`, `(g1 "s" 2)`, `(g1 1 2)`, `(documentation 'g1 'function)`}},
 	{"defpackage", []string{`(defpackage :pk1 (:use :cl) (:export :pv))`, `(defvar pk1::pv 11)`, `(defun pk1::pf (x) (1+ x))`},
 		[]string{`pk1::pv`, `(pk1::pf 1)`, `(package-name (find-package 'pk1))`}},
 	{"flavor-tree", []string{
@@ -84,6 +116,49 @@ var items = []*item{
 		[]string{`(slot-value *ci* 's)`, `(slot-value *ci* 'u)`, `(slot-boundp *ci* 'w)`, `(slot-value *ci2* 'u)`, `(slot-value *ci2* 'w)`, `(slot-value *ci2* 's)`}},
 	{"defun-layouts", []string{`(defun f3 (a &key (k 2)) (let ((z (cond ((< a 0) "neg") (t "pos")))) (dotimes (i 2) (setq k (+ k i))) (list z k)))`},
 		[]string{`(f3 1)`, `(f3 -1 :k 5)`}},
+}
+
+// optionItems: sessions of their own (and one session with all of them).
+var optionItems = []*item{
+	// items whose saved form carries things the other items' probes do not look at (the text fixed point alone is
+	// blind to something the writer leaves out both times): accessor subsets, init keywords, documentation, abstract
+	// flavors, default initargs, class allocated slots, method qualifiers and documentation, package options
+	{"defflavor-options", []string{
+		`(defflavor fo1 ((a 1) (b 2) c) () (:gettable-instance-variables a) (:settable-instance-variables b) (:inittable-instance-variables c) (:init-keywords :extra) (:documentation "Doc of fo1."))`,
+		`(defflavor fo2 ((d 4)) (fo1) (:default-init-plist (:allow-other-keys t)))`,
+		`(defflavor fo3 (e) () :abstract-flavor)`,
+		`(defflavor fo4 ((b 2)) (fo1) (:gettable-instance-variables b))`},
+		[]string{`(send (make-instance 'fo1) :a)`, `(send (make-instance 'fo1) :b)`,
+			`(let ((i (make-instance 'fo1))) (send i :set-b 5) (slot-value i 'b))`, `(send (make-instance 'fo1) :set-a 1)`,
+			`(slot-value (make-instance 'fo1 :c 9) 'c)`, `(make-instance 'fo1 :a 9)`, `(progn (make-instance 'fo1 :extra 1) 'accepted)`,
+			`(documentation 'fo1 'type)`, `(progn (make-instance 'fo2 :whatever 1) 'accepted)`, `(slot-value (make-instance 'fo2 :c 7) 'c)`,
+			`(make-instance 'fo3)`, `(send (make-instance 'fo4) :b)`, `(send (make-instance 'fo4) :a)`, `(documentation 'fo4 'type)`}},
+	{"defclass-options", []string{
+		`(defclass co1 () ((s1 :initarg :s1 :initform 1 :documentation "Doc of s1.") (s2 :allocation :class :initform 2) (s3 :type fixnum :initarg :s3)) (:documentation "Doc of co1.") (:default-initargs :s3 33))`,
+		`(defclass co2 (co1) ((s1 :initform 10) (s4 :initform 4)) (:default-initargs :s3 44))`,
+		`(defclass co3 (co2) ((s1 :initform 1)) (:default-initargs :s3 33))`},
+		[]string{`(slot-value (make-instance 'co1) 's1)`, `(slot-value (make-instance 'co2) 's1)`, `(slot-value (make-instance 'co3) 's1)`,
+			`(slot-value (make-instance 'co3 :s1 5) 's1)`, `(slot-value (make-instance 'co1) 's3)`, `(slot-value (make-instance 'co2) 's3)`,
+			`(slot-value (make-instance 'co3) 's3)`, `(slot-value (make-instance 'co1 :s3 3) 's3)`,
+			`(let ((i (make-instance 'co1)) (j (make-instance 'co1))) (setf (slot-value i 's2) 9) (slot-value j 's2))`,
+			`(documentation 'co1 'type)`, `(documentation 'co2 'type)`, `(slot-value (make-instance 'co3) 's4)`}},
+	{"defgeneric-qualifiers", []string{`(defvar *gq* nil)`,
+		`(defgeneric gq1 (a) (:documentation "Doc of gq1."))`,
+		`(defmethod gq1 ((a fixnum)) "Doc of the fixnum method." (setq *gq* (cons 'primary *gq*)) (* a 2))`,
+		`(defmethod gq1 :before ((a fixnum)) (setq *gq* (cons 'before *gq*)))`,
+		`(defmethod gq1 :after ((a fixnum)) (setq *gq* (cons 'after *gq*)))`,
+		`(defmethod gq1 :around ((a integer)) (setq *gq* (cons 'around *gq*)) (list 'wrapped (call-next-method)))`,
+		`(defmethod gq1 ((a string)) (list 'string a))`},
+		[]string{`(progn (setq *gq* nil) (list (gq1 4) *gq*))`, `(gq1 "s")`, `(gq1 1.5)`, `(documentation 'gq1 'function)`,
+			effectiveMethodDoc("gq1", "fixnum"), effectiveMethodDoc("gq1", "string")}},
+	{"define-condition", []string{
+		`(define-condition cnd1 (error) ((x :initarg :x :initform 0)) (:documentation "Doc of cnd1."))`,
+		`(define-condition cnd2 (cnd1) ((y :initarg :y :initform 0)))`},
+		[]string{`(slot-value (make-condition 'cnd2 :x 3) 'x)`, `(slot-value (make-condition 'cnd2) 'y)`, `(typep (make-condition 'cnd2) 'cnd1)`,
+			`(typep (make-condition 'cnd1) 'error)`, `(documentation 'cnd1 'type)`}},
+	{"defpackage-options", []string{`(defpackage :pk2 (:use :cl) (:nicknames :pk2n) (:export :x1) (:documentation "Doc of pk2."))`},
+		[]string{`(package-name (find-package 'pk2n))`, `(mapcar 'package-name (package-use-list (find-package 'pk2)))`,
+			`(package-nicknames (find-package 'pk2))`, `(documentation (find-package 'pk2) t)`, `(multiple-value-list (find-symbol "x1" (find-package 'pk2)))`}},
 }
 
 // redefItems: every item defines something and then defines it AGAIN in
@@ -187,12 +262,20 @@ func init() {
 var menu []string
 
 func itemByID(id string) *item {
+	if strings.HasPrefix(id, "inh:") {
+		return inhItem(id)
+	}
 	for _, it := range items {
 		if it.id == id {
 			return it
 		}
 	}
 	for _, it := range redefItems {
+		if it.id == id {
+			return it
+		}
+	}
+	for _, it := range optionItems {
 		if it.id == id {
 			return it
 		}
@@ -276,6 +359,14 @@ func enumerateSnap(tier string, emit func(string)) {
 	for _, it := range chainItems {
 		out([]string{it.id})
 	}
+	var optAll []string
+	for _, it := range optionItems {
+		out([]string{it.id})
+		optAll = append(optAll, it.id)
+	}
+	out(optAll)
+	// the inheritance worlds (inherit.go), each a session of its own
+	enumerateInhSnap(tier, out)
 }
 
 // ------------------------------------------------------------------ stages
@@ -362,7 +453,14 @@ func execStage(spec string, res *engine.Result) {
 		first, _ := os.ReadFile(s1)
 		base := stripHeader(string(first))
 		seen := map[string]bool{base: true}
-		for i := 0; i < 23; i++ {
+		// the generated inheritance worlds are asked 4 times, the menu sessions 24 times
+		repeats := 23
+		for _, it := range its {
+			if it.inhWorld() != nil {
+				repeats = 3
+			}
+		}
+		for i := 0; i < repeats; i++ {
 			v, err := lisp.EvalIn(scope, "(snapshot nil)")
 			if err != nil {
 				break
@@ -404,7 +502,12 @@ func execStage(spec string, res *engine.Result) {
 		}
 		snapshot(s2)
 	case "stage3":
-		text, err := os.ReadFile(s1)
+		// the text the filtered load was given (without slip's own swank forms, listed slot option names as their
+		// repair would write them) when there is one: what is stepped around once stays stepped around
+		text, err := os.ReadFile(filepath.Join(dir, "s1f.lisp"))
+		if err != nil {
+			text, err = os.ReadFile(s1)
+		}
 		if err != nil {
 			res.Fail("harness:snap-file", err.Error())
 			return
@@ -586,7 +689,7 @@ var userNames = map[string]bool{}
 func init() {
 	for _, n := range []string{"*va*", "*pb*", "+kc+", "*vs*", "*vk*", "f1", "f2", "f9", "fw", "m1", "fl1", "cl1", "g1", "pk1", "pv", "pf",
 		"flz", "fla", "fm1", "fm2", "fm3", "fu1", "fu2", "fu3", "*vi*", "*vh*", "*vv*", "*vstr*", "f3",
-		"rf1", "rm1", "*rv*", "*rp*", "rg1", "rc1", "rfl"} {
+		"rf1", "rm1", "*rv*", "*rp*", "rg1", "rc1", "rfl", "*gq*", "gq1", "ih-g", "ih-ra", "ih-rb", "ih-t"} {
 		userNames[n] = true
 	}
 }
@@ -717,6 +820,18 @@ func execSnap(spec string, res *engine.Result) {
 	}
 	res.Hit("snap-session")
 	res.Nontrivial = 0 < len(its)
+	for _, it := range its {
+		if w := it.inhWorld(); w != nil {
+			res.Hit("snap-inherit-session")
+			res.Hit("snap-inherit-session:" + w.fam.lang)
+			if w.repeats {
+				res.Hit("snap-inherit-leaf-repeats-distant")
+			}
+			if w.restates {
+				res.Hit("snap-inherit-leaf-restates-nearer")
+			}
+		}
+	}
 	childSeq++
 	dir := filepath.Join("/verif/.build/scratch/C19", fmt.Sprintf("s%d-%d-%x", os.Getpid(), childSeq, engine.Hash64(spec)))
 	if err := os.MkdirAll(dir, 0o755); err != nil {
@@ -762,10 +877,10 @@ func execSnap(spec string, res *engine.Result) {
 	forms1 := splitForms(t1)
 	for _, k := range o1.VarKinds {
 		res.Fail("snap nondeterministic-text "+k,
-			fmt.Sprintf("session [%s]: %d different texts from 24 snapshots of the same unchanged session (apart from the header line): %s", session, o1.Variants, k))
+			fmt.Sprintf("session [%s]: %d different texts from repeated snapshots (24 for a menu session, 4 for an inheritance world) of the same unchanged session (apart from the header line): %s", session, o1.Variants, k))
 	}
 	if o1.FlavorOrder != "" {
-		res.Fail("snap flavor-order derived-before-base", fmt.Sprintf("session [%s]: in one of 24 snapshots of the unchanged session %s", session, o1.FlavorOrder))
+		res.Fail("snap flavor-order derived-before-base", fmt.Sprintf("session [%s]: in one of the repeated snapshots of the unchanged session %s", session, o1.FlavorOrder))
 	}
 	mode := "load"
 	o2, fail := runChild("stage2|" + session + "|" + dir)
@@ -782,6 +897,12 @@ func execSnap(spec string, res *engine.Result) {
 		var kept []string
 		for _, f := range forms1 {
 			if !builtinJunk[formKey(f)] {
+				if strings.HasPrefix(f, "(defclass ") && o2.LoadCls == "type-error" && strings.Contains(o2.LoadErr, "slot-option") {
+					// the listed finding of SlotDef.LoadForm (:readers / :writers / :accessors are written, defclass takes
+					// the singular): written the way its repair would
+					f = slotOptionsSingular(f)
+					res.Hit("snap-degraded-slot-options-singular")
+				}
 				kept = append(kept, f)
 			}
 		}
@@ -832,6 +953,7 @@ func execSnap(spec string, res *engine.Result) {
 	}
 	// probes
 	k := 0
+	probeSeen := map[string]bool{}
 	for _, it := range its {
 		for pi, p := range it.probes {
 			if len(o1.Probes) <= k || len(o2.Probes) <= k {
@@ -841,8 +963,16 @@ func execSnap(spec string, res *engine.Result) {
 			a, b := o1.Probes[k], o2.Probes[k]
 			k++
 			res.Hit("snap-probes-compared")
+			if it.inhWorld() != nil {
+				res.Hit("snap-inherit-probes-compared")
+			}
 			if normDocs(a) != normDocs(b) {
-				res.Fail(fmt.Sprintf("snap probe-differs item=%s probe=%d original=%s reloaded=%s", it.id, pi+1, probeKind(a), probeKind(b)),
+				sig := fmt.Sprintf("snap probe-differs item=%s probe=%s original=%s reloaded=%s", it.sigName(), it.probeName(pi), probeKind(a), probeKind(b))
+				if probeSeen[sig] {
+					continue
+				}
+				probeSeen[sig] = true
+				res.Fail(fmt.Sprintf("snap probe-differs item=%s probe=%s original=%s reloaded=%s", it.sigName(), it.probeName(pi), probeKind(a), probeKind(b)),
 					fmt.Sprintf("session [%s] (%s mode): %s => %s in the session, %s after loading its snapshot into a fresh process", session, mode, p, a, b))
 			}
 		}
@@ -967,7 +1097,7 @@ func execSnap(spec string, res *engine.Result) {
 			res.Hit("snap-definitions-looked-for")
 			if !found && !absentSeen[it.id+key] {
 				absentSeen[it.id+key] = true
-				res.Fail(fmt.Sprintf("snap definition-absent item=%s form=%s", it.id, key),
+				res.Fail(fmt.Sprintf("snap definition-absent item=%s form=%s", it.sigName(), key),
 					fmt.Sprintf("session [%s]: the snapshot text has no form that defines %s (session form %s)", session, want, src))
 			}
 		}
